@@ -92,7 +92,9 @@ def lemmas(ev: Any) -> tuple[list[Any], list[str], dict[str, Any]]:
     tv = 0
     corpus = _corpus(BH) + ["{% a %}", "<!-- a -->", " {% a %}", "{% /a %}", "{{ x }}", "{# c #}", "a {% b %}", "{% a %} b", "-->", "", " "]
     if not th:
-        corpus = corpus[::12] + ["- x", "1. x", "| a"]
+        corpus = ["- x", "12. x", "| a", "1.0", " *"]
+    else:
+        corpus = corpus[::3]
     for name, fn in fns.items():
         ps, pre = enc[name]
         for s_ in corpus:
